@@ -5,7 +5,20 @@ import os
 
 HERE = os.path.dirname(os.path.dirname(os.path.abspath(__file__)))
 
+KTECH = "deterministic simulation: the sampler's generator is replaced at the rng seam by a simulated one; complete replay-DFS traversal of the random-outcome tree from every start state gives the exact transition matrix; configurations chosen by seeded swarm search"
 CHECKS = {
+    "C01": dict(
+        level="exploration",
+        technique=KTECH,
+        text="For each configuration (data set of 1-3 points, thorough 4; alpha; 3 proposals; N; threshold; outlier probability; run-command wiring and library wiring) every outcome of every draw of ParticleGibbsTreeSampler.sample_tree is traversed on the real code from every start tree, giving the exact kernel K; rows must sum to 1, stay in the state space, and max|pi K - pi| <= 1e-9 with pi = exp(log_p_one). Exact per configuration (residuals where it holds are ~1e-16, defects found were 1e-5..5e-2); configurations are a fixed cross plus seeded random ones, so this is exploration, not proof.",
+        note="pi is built from the code's own log_p_one (C03 judges that value). Trusts the simulated generator's outcome probabilities (self-tested) and leaf purity (all memo caches cleared per leaf). Sizes beyond n=4 / N=4 are not traversed.",
+        ref="4 (C01)"),
+    "C04": dict(
+        level="exploration",
+        technique=KTECH,
+        text="Same exact-kernel machine applied to DataPointSampler (outlier option on/off, n<=4, thorough 5), PruneRegraphSampler (n<=4, thorough 5), ParticleGibbsSubtreeSampler (3 proposals, both wirings, n<=3, thorough 4) and one real iteration of run._run_main_sampler (n<=2, one n=3). Each move has its own residual and key; the subtree move's bias is a recorded finding identified by pinned exact residuals.",
+        note="Same trusted base as C01. Known finding C04-subtree-move-not-invariant suppresses only invariance failures of op=subtree (and sweeps using it); its pinned configurations must keep their recorded residuals.",
+        ref="4 (C04)"),
     "C09": dict(
         level="exploration",
         technique="deterministic simulation: complete replay-DFS traversal of the random-outcome tree of the order sampler under a simulated generator, compared with an enumerating reference model",
